@@ -31,7 +31,7 @@ def run(tier, seed):
     ]
     run_contracts(pack, items)
     from contracts import C01_assembly
-    run_contracts(pack, [(C01_assembly.fg_to_dae('C09'),), (C01_assembly.store_adder_setter('C09'), None, C01_assembly.replay_store_adder_setter)])
+    run_contracts(pack, [(C01_assembly.fg_to_dae('C09'), None, C01_assembly.replay_fg_to_dae), (C01_assembly.store_adder_setter('C09'), None, C01_assembly.replay_store_adder_setter)])
     # the order in which one residual round consults the discrete components, and that each component is consulted once
     from contracts import fn_sequence as Q
     run_contracts(pack, [(Q.pflow_fg_update('C09'),), (Q.tds_fg_update('C09'),), (Q.call_models('C09'),), (Q.model_l_update_var('C09'),),
